@@ -27,9 +27,73 @@ def _c19(tier: str) -> list[dict]:
     ]
 
 
+def _e1(label: str, weights: dict, nq: int, nt: int, extra: dict | None = None):
+    def f(tier: str) -> list[dict]:
+        q = tier == "quick"
+        prof = {"weights": weights}
+        prof.update(extra or {})
+        return [{"engine": "e1_container", "label": label, "profile": prof, "n_runs": nq if q else nt, "budget_s": 150 if q else 1500}]
+
+    return f
+
+
+E1_RULE = (
+    "seeded histories of 8-40 public-API operations on a register file of real MultiImage objects (constructors in drawn insertion "
+    "orders, append, from_images, concat/concat_inverse, expand/combine/merge, reshape_pmap, vector / scalar-channel / image round trips, "
+    "copy, subset, + - * / ==, losses, group action, norm, pooling, component selection) interleaved with transport events "
+    "(pytree round trip, jit, vmap, copy, re-insertion in a drawn permutation); d in 1..3, non-square extents, 0-3 leading axes; "
+    "after every step every live register is compared bit-exactly, by type, with an unordered numpy reference; "
+    "distinct = hash of the sequence of operation/transport kinds; non-trivial = the history contains at least one transport event "
+    "or one binary operation whose operands are stored in different orders"
+)
+
 CHECKS: dict[str, dict] = {
+    "C12": {
+        "batches": _e1("arith", {"arith": 3}, 600, 24000),
+        "rule": E1_RULE,
+        "level_text": "Seeded search over operation-and-transport histories of real MultiImage objects against an unordered reference model, compared bit-exactly by type after every step; failing histories are delta-debugged to a few operations and replayed from a file. Sampling, not proof.",
+        "level_note": "Trusted: the numpy reference semantics in sim/engines/e1_container.py (about 250 lines), JAX as installed. Values are small integers so float32 arithmetic is exact.",
+        "technique": "deterministic simulation of operand storage histories with transport faults (jit/vmap/pytree reordering, re-insertion), seeded history search against an unordered reference model, ddmin + replay",
+        "design_ref": "DESIGN.md section 3 (C12)",
+        "components": REAL_STUB,
+        "assumptions": ["values are small integers in float32 and scalars are powers of two, so the oracle is bit-exact"],
+    },
+    "C13": {
+        "batches": _e1("relayout", {"relayout": 3}, 600, 24000),
+        "rule": E1_RULE,
+        "level_text": "Seeded search over operation-and-transport histories of real MultiImage objects against an unordered reference model, compared bit-exactly by type after every step; failing histories are delta-debugged to a few operations and replayed from a file. Sampling, not proof.",
+        "level_note": "Trusted: the numpy reference semantics in sim/engines/e1_container.py (about 250 lines), JAX as installed. Values are small integers so float32 arithmetic is exact.",
+        "technique": "deterministic simulation of re-layout chains with transport faults, seeded history search against an unordered reference model; save/load through a fault-injecting simulated disk (E4, when registered)",
+        "design_ref": "DESIGN.md section 3 (C13)",
+        "components": REAL_STUB,
+        "assumptions": ["values are small integers in float32, so the oracle is bit-exact"],
+    },
+    "C14": {
+        "batches": _e1("per_image", {"obs": 4}, 500, 20000),
+        "rule": E1_RULE,
+        "level_text": "Seeded search over operation-and-transport histories of real MultiImage objects against an unordered reference model, compared bit-exactly by type after every step; failing histories are delta-debugged to a few operations and replayed from a file. Sampling, not proof.",
+        "level_note": "Trusted: the numpy reference semantics in sim/engines/e1_container.py (about 250 lines), JAX as installed. Values are small integers so float32 arithmetic is exact.",
+        "technique": "deterministic simulation: leading-axis layouts reached by operation histories, per-entry comparison with the single-image operation; batch-schedule half via the training-loop world (when registered)",
+        "design_ref": "DESIGN.md section 3 (C14)",
+        "components": REAL_STUB,
+        "assumptions": ["the per-image reference is the library's own single-image operation applied entry by entry"],
+    },
+    "C18": {
+        "batches": _e1("losses", {"loss": 5}, 600, 24000),
+        "rule": E1_RULE,
+        "level_text": "Seeded search over operation-and-transport histories of real MultiImage objects against an unordered reference model, compared bit-exactly by type after every step; failing histories are delta-debugged to a few operations and replayed from a file. Sampling, not proof.",
+        "level_note": "Trusted: the numpy reference semantics in sim/engines/e1_container.py (about 250 lines), JAX as installed. Values are small integers so float32 arithmetic is exact.",
+        "technique": "deterministic simulation of prediction/target storage histories with transport faults, seeded search against a float64 reference from the statement, group element applied to both arguments",
+        "design_ref": "DESIGN.md section 3 (C18)",
+        "components": REAL_STUB,
+        "assumptions": ["float64 reference from the statement; relative tolerance 1e-5 (exact for the integer data used)"],
+    },
     "C19": {
         "batches": _c19,
+        "level_text": "Seeded search over loss histories, stop-condition configurations, scalar representations, batch/device schedules and clock faults; the real ml.train loop and the real stop-condition classes run inside the simulated world and are compared decision by decision with a reference patience automaton, with bounded liveness (the loop must stop within 3 epochs of the reference). Sampling, not proof.",
+        "level_note": "Trusted: the 15-line reference automaton, JAX/equinox/optax as installed. Loss alphabets are dyadic so float32 and float64 comparisons agree exactly. In the scripted loop batch the model, optimiser and loss are stubs (step counter, increment, table lookup); train/train_step/get_batches/evaluate/pmap and the stop conditions are real.",
+        "technique": "deterministic simulation of the training loop with fault injection (scalar-type erasure at the pmap boundary, clock jumps/stalls, device schedules), seeded history search against a reference automaton, bounded-liveness seam",
+        "design_ref": "DESIGN.md section 3 (C19)",
         "rule": (
             "seeded loss histories (<=24 epochs, dyadic alphabet of 2-6 letters plus NaN/inf in a quarter of runs) x "
             "condition (TrainLoss/ValLoss/EpochStop, patience 0-3, min_delta 0/0.125/1, verbose) x scalar representation "
